@@ -125,7 +125,9 @@ B("C08", "mean-curve-peak-full-range", "hvsr_traditional.py", "                 
 # ----------------------------------------------------------------------------- C09
 B("C09", "record-window-in-place", "processing.py", "            ns = TimeSeries.from_timeseries(record.ns)\n            ns.window(*settings.window_type_and_width)", "            ns = record.ns\n            ns.window(*settings.window_type_and_width)")
 B("C09", "asarray-in-timeseries", "timeseries.py", "self.amplitude = np.array(amplitude, dtype=np.double)", "self.amplitude = np.asarray(amplitude, dtype=np.double)")
-B("C09", "settings-counter", "processing.py", "    return PROCESSING_METHODS[settings.processing_method](records, settings)", "    settings.n_calls = getattr(settings, \"n_calls\", 0) + 1\n    return PROCESSING_METHODS[settings.processing_method](records, settings)")
+B("C09", "settings-counter", "processing.py", "    settings = copy.deepcopy(settings)\n    return PROCESSING_METHODS", "    settings.n_calls = getattr(settings, \"n_calls\", 0) + 1\n    settings = copy.deepcopy(settings)\n    return PROCESSING_METHODS")
+B("C09", "no-private-settings", "processing.py", "    settings = copy.deepcopy(settings)\n    return PROCESSING_METHODS", "    return PROCESSING_METHODS")
+N("C09", "counter-on-the-copy", "processing.py", "    return PROCESSING_METHODS[settings.processing_method](records, settings)", "    settings.n_calls = getattr(settings, \"n_calls\", 0) + 1\n    return PROCESSING_METHODS[settings.processing_method](records, settings)")
 B("C09", "detrend-records-in-process", "processing.py", "    prepare_fft_settings(records, settings)\n\n    records, dt_with_count = prepare_records_with_inconsistent_dt(\n        records, settings)\n\n    if len(dt_with_count.keys()) > 1:",
   "    prepare_fft_settings(records, settings)\n    for record in records:\n        record.detrend(\"constant\")\n\n    records, dt_with_count = prepare_records_with_inconsistent_dt(\n        records, settings)\n\n    if len(dt_with_count.keys()) > 1:")
 N("C09", "copy-records-first", "processing.py", "def traditional_hvsr_processing(records, settings):\n    prepare_fft_settings(records, settings)", "def traditional_hvsr_processing(records, settings):\n    records = list(records)\n    prepare_fft_settings(records, settings)")
@@ -210,7 +212,7 @@ B("C18", "refusal-removed", "timeseries.py", "        if start_time >= end_time:
 N("C18", "explicit-copy", "timeseries.py", "self.amplitude = np.array(amplitude, dtype=np.double)", "self.amplitude = np.array(amplitude, dtype=np.double, copy=True)")
 
 # ----------------------------------------------------------------------------- C19
-B("C19", "shared-settings", "cli.py", "    processing_settings = copy.deepcopy(processing_settings)\n", "")
+N("C19", "shared-processing-settings", "cli.py", "    processing_settings = copy.deepcopy(processing_settings)\n", "", note="process() works on its own copy since 6984ed3: sharing the processing settings between tasks is harmless")
 B("C19", "constant-output-name", "cli.py", 'f"{pathlib.Path(fname).stem}.csv",', '"output.csv",')
 B("C19", "module-cache", "cli.py", "def _process_hvsr(fname, preprocessing_settings, processing_settings, settings): # pragma: no cover\n    start = time.perf_counter()", "_SEEN = []\n\ndef _process_hvsr(fname, preprocessing_settings, processing_settings, settings): # pragma: no cover\n    _SEEN.append(fname)\n    start = time.perf_counter()")
 B("C19", "swapped-settings-files", "cli.py", 'preprocessing_settings = read_settings_object_from_file(kwargs.pop("preprocessing_settings_file"))\n    processing_settings = read_settings_object_from_file(kwargs.pop("processing_settings_file"))',
